@@ -79,14 +79,13 @@ structure Flags where
   scope : Bool := false
   arity : Bool := false
   focus : Bool := false
-  misc : Bool := false
   deriving DecidableEq, Repr, Inhabited
 
 def Flags.none : Flags := {}
 def Flags.or (a b : Flags) : Flags :=
   { stale := a.stale || b.stale, scope := a.scope || b.scope, arity := a.arity || b.arity,
-    focus := a.focus || b.focus, misc := a.misc || b.misc }
-def Flags.any (a : Flags) : Bool := a.stale || a.scope || a.arity || a.focus || a.misc
+    focus := a.focus || b.focus }
+def Flags.any (a : Flags) : Bool := a.stale || a.scope || a.arity || a.focus
 
 /-- a function object: `tok = some i` when it is the token of function expression `i` itself;
 `env` = its `variables` attribute (`None` for a token that was never evaluated) -/
@@ -134,12 +133,6 @@ def IM.getSlot (t : Nat) : IM (Option (Env × Env)) :=
 def IM.single (s : Seq) : IM Nat := match s with
   | [.fn a] => pure a
   | _ => IM.throw .XPTY0004
-/-- `except ElementPathTypeError … XPTY0004 → FOAP0001` of `fn:apply`; when the arity was right
-the `XPTY0004` came from inside the function: flag `misc` -/
-def IM.applyErr {α} (arityOk : Bool) (m : IM α) : IM α := fun st => match m st with
-  | (fl, .error .XPTY0004) => (fl.or { misc := arityOk }, .error .FOAP0001)
-  | r => r
-
 /-- dynamic context: `item` = `context.item`; `lex`, `litem` ghost -/
 structure ICtx where
   item : Option Item
@@ -156,10 +149,8 @@ def FObj.arity (o : FObj) : Nat := match o.fixed with
   | some pat => holes pat
   | none => match o.code with | .inline ps _ => ps.length | .builtin b => b.arity
 
-/-- `check_arguments_number`: `nargs` is `None` for a plain inline function (no check) -/
-def FObj.nargsOk (o : FObj) (n : Nat) : Bool := match o.fixed, o.code with
-  | none, .inline _ _ => true
-  | _, _ => o.arity == n
+/-- `check_arguments_number` (an inline function checks against its parameter count) -/
+def FObj.nargsOk (o : FObj) (n : Nat) : Bool := o.arity == n
 
 /-- the `'inline partial function'` loop of `__call__`:
 `for varname, tk in zip(self.varnames, self): if tk is fixed: bind tk's value else bind args[k]; k += 1` -/
@@ -206,17 +197,11 @@ def callFn (c : ICtx) (D : Env) (a : Nat) (args : List Seq) : IM (Seq × Env) :=
     -- XPathFunction.__call__: check_arguments_number, arguments into the token, evaluate
     if o.nargsOk args.length then
       let full := match o.fixed with | none => args | some pat => fill pat args
-      if full.length = b.arity then
-        -- `to_partial_function` replaces `select` of the copy by "yield self"; fn:exists / fn:empty
-        -- evaluate through `self.select`, so a partially applied one answers `bool(self)` = true
-        if o.fixed.isSome && (b == .exists_ || b == .empty_) then do
-          IM.flag { misc := true }
-          pure ([.bool true], D)
-        else do
-          -- `context = copy(self.context or context)`: a reference evaluates in the context it captured
-          IM.flag { focus := b.focusDep && decide (o.fitem ≠ o.flitem) }
-          let r ← IM.lift (b.apF (o.fitem, o.fpos, o.fsize) full)
-          pure (r, D)
+      if full.length = b.arity then do
+        -- `context = copy(self.context or context)`: a reference evaluates in the context it captured
+        IM.flag { focus := b.focusDep && decide (o.fitem ≠ o.flitem) }
+        let r ← IM.lift (b.apF (o.fitem, o.fpos, o.fsize) full)
+        pure (r, D)
       else IM.throw .XPTY0004
     else IM.throw .XPTY0004
   | .inline ps body =>
@@ -256,7 +241,6 @@ placeholders of an already partial function; `to_partial_function()` -/
 def partialApply (c : ICtx) (D : Env) (a : Nat) (args : List (Option Expr)) : IM (Seq × Env) := do
   let o ← IM.getObj a
   if o.nargsOk args.length then do
-    IM.flag { arity := decide (args.length ≠ o.arity) }
     let vars ← currentVars cfg o
     let r ← evalArgs ev c D args
     let pat := match o.fixed with | none => r.1 | some old => refill old r.1
@@ -265,21 +249,9 @@ def partialApply (c : ICtx) (D : Env) (a : Nat) (args : List (Option Expr)) : IM
     pure ([.fn n], r.2)
   else IM.throw .XPTY0004
 
-/-- function argument of for-each / filter / fold-* / for-each-pair / apply:
-`func = self[k]` when the argument token *is* a function token (an inline function expression
-written in place: it is used without being evaluated, its `variables` stay `None`), else
-`get_argument(context, index=k, cls=XPathFunction, required=True)` -/
-def funArg (c : ICtx) (D : Env) (f : Expr) : IM (Nat × Env) :=
-  match f with
-  | .fnE _ ps body => do
-    let n ← IM.alloc { tok := none, code := .inline ps body, env := none, lex := c.lex, fixed := none }
-    pure (n, D)
-  | _ => do
-    let v ← ev f c D
-    let a ← IM.single v.1
-    pure (a, v.2)
-
-/-- `sort` evaluates its function argument through `get_argument` in every case -/
+/-- function argument of the higher-order functions: `get_argument(context, index=k,
+cls=XPathFunction, required=True)` — always evaluated (repair `the higher-order functions evaluate
+their function argument`) -/
 def funArgEval (c : ICtx) (D : Env) (f : Expr) : IM (Nat × Env) := do
   let v ← ev f c D
   let a ← IM.single v.1
@@ -290,24 +262,9 @@ def checkArity (a n : Nat) : IM Unit := do
   let o ← IM.getObj a
   if o.arity = n then pure () else IM.throw .XPTY0004
 
-/-- for-each, filter, sort do not look at the arity: only the trigger flag records a mismatch -/
-def noteArity (a n : Nat) : IM Unit := do
-  let o ← IM.getObj a
-  IM.flag { arity := decide (o.arity ≠ n) }
-
-def funArgNote (c : ICtx) (D : Env) (f : Expr) (n : Nat) : IM (Nat × Env) := do
-  let fa ← funArg ev c D f
-  noteArity fa.1 n
-  pure fa
-
 def funArgCheck (c : ICtx) (D : Env) (f : Expr) (n : Nat) : IM (Nat × Env) := do
-  let fa ← funArg ev c D f
-  checkArity fa.1 n
-  pure fa
-
-def funArgEvalNote (c : ICtx) (D : Env) (f : Expr) (n : Nat) : IM (Nat × Env) := do
   let fa ← funArgEval ev c D f
-  noteArity fa.1 n
+  checkArity fa.1 n
   pure fa
 
 /-- `for item in …: result = func(item); yield from result` -/
@@ -481,11 +438,11 @@ def step (e : Expr) (c : ICtx) (D : Env) : IM (Seq × Env) :=
     let xs ← ev a c D
     mapLoop ev c b xs.1.length 1 xs.2 [] xs.1
   | .forEach s f => do
-    let fa ← funArgNote ev c D f 1
+    let fa ← funArgCheck ev c D f 1
     let xs ← ev s c fa.2
     hofForEach cfg ev c fa.1 xs.2 [] xs.1
   | .filter s f => do
-    let fa ← funArgNote ev c D f 1
+    let fa ← funArgCheck ev c D f 1
     let xs ← ev s c fa.2
     hofFilter cfg ev c fa.1 xs.2 [] xs.1
   | .foldL s z f => do
@@ -506,17 +463,18 @@ def step (e : Expr) (c : ICtx) (D : Env) : IM (Seq × Env) :=
       let ys ← ev s2 c xs.2
       hofPairs cfg ev c fa.1 ys.2 [] (xs.1.zip ys.1)
   | .sortK s f => do
-    let fa ← funArgEvalNote ev c D f 1
+    let fa ← funArgCheck ev c D f 1
     let xs ← ev s c fa.2
     if xs.1.length < 2 then pure (xs.1, xs.2) else do
       let ks ← hofKeys cfg ev c fa.1 xs.2 [] xs.1
-      pure (sortByKey ks.1, ks.2)
+      -- `deep_compare`: a boolean key component against a numeric one raises XPTY0004
+      if keysUniform (ks.1.map (·.2)) then pure (sortByKey ks.1, ks.2) else IM.throw .XPTY0004
   | .apply f ms => do
-    let fa ← funArg ev c D f
+    let fa ← funArgEval ev c D f
     let vals ← evalList ev c fa.2 ms
     let o ← IM.getObj fa.1
-    -- the call; `except ElementPathTypeError: XPTY0004/XPST0017 → FOAP0001`
-    IM.applyErr (o.arity == vals.1.length) (callFn cfg ev c vals.2 fa.1 vals.1)
+    -- `if func.arity != len(items): raise FOAP0001`
+    if o.arity = vals.1.length then callFn cfg ev c vals.2 fa.1 vals.1 else IM.throw .FOAP0001
 
 end Step
 
